@@ -227,3 +227,19 @@ func init() {
 		return Bound{V: Val{t, "Bool"}, T: types.Typ[types.Bool]}, nil
 	}
 }
+
+// calleeis("full name"): inside a `site call` condition, the function actually called is exactly that one (e.g.
+// the package-level jwt.ParseWithClaims with its default validation, not a method of a differently configured parser
+// that happens to have the same name).
+func init() {
+	extCalls["calleeis"] = func(e *Env, x *Expr) (Bound, error) {
+		if len(x.Args) != 1 || x.Args[0].Op != "str" || e.f == nil {
+			return Bound{}, fmt.Errorf("calleeis(\"full name\")")
+		}
+		t := "false"
+		if e.f.siteCallee == x.Args[0].Name {
+			t = "true"
+		}
+		return Bound{V: Val{t, "Bool"}, T: types.Typ[types.Bool]}, nil
+	}
+}
